@@ -419,7 +419,13 @@ def gen_case(ch: Chooser, excl=()):
                 "decls": [], "procs": [], "doc": None}
         body = {"k": "subroutine", "name": b.fresh("xb"), "args": [], "prefix": [], "decls": [], "uses": [], "doc": None}
         b.add_uses(body, ch.choice(modnames), sem)
-        host["decls"].append({"d": "interface", "form": "explicit", "bodies": [body], "doc": None})
+        # (the body sits in a plain, an abstract or a generic interface block)
+        form = ch.choice(["explicit", "abstract", "generic"]) if "ifbody_forms" not in b.excl else "explicit"
+        decl = {"d": "interface", "form": form, "bodies": [body], "doc": None}
+        if form == "generic":
+            decl.update(name=b.fresh("gen"), modprocs=[], access=None)
+        host["decls"].append(decl)
+        b.feats.add("use-in-interface-body:" + form)
         b.files.append({"path": f"src/{host['name']}.f90", "form": "free", "units": [host], "doc": None})
         consumers.append(("ifbody", body, [host["name"], body["name"]], False))
     sem = b.sem()
@@ -521,10 +527,13 @@ def find_scope(project, path, ifbody=None):
             if p.name.lower() == nm:
                 nxt = p
         if nxt is None:
-            for i in getattr(cur, "interfaces", []):
+            for i in list(getattr(cur, "interfaces", [])) + list(getattr(cur, "absinterfaces", [])):
                 pr = getattr(i, "procedure", None)
                 if pr is not None and pr.name.lower() == nm:
                     nxt = pr
+                for pr in list(getattr(i, "functions", [])) + list(getattr(i, "subroutines", [])):
+                    if pr.name.lower() == nm:           # a body of a generic interface block
+                        nxt = pr
         if nxt is None:
             return None
         cur = nxt
